@@ -93,7 +93,7 @@ CHECKS = {
               "every trace that entered the try block contains the close of the helper channel before exit, whatever exception class ended "
               "the loop (incl. failures inside the finally block); a dead ssh at any iteration ends the loop with Fatal; a wrong or missing "
               "handshake never leads to a start request. Tied to /repo by running the real client.main/_main/FirewallClient/sdnotify with scripted "
-              "ssh.connect and runonce, exception injection at every step, and a real helper child process observing EOF."),
+              "ssh.connect and runonce, exception injection at every step, and a real helper child process observing EOF. Every scripted scenario runs under a watchdog: a client that never leaves its start-up or main code is reported with the scenario as failing input."),
         note="modelled not verified: the fork in daemonize (model continues in the grandchild), asynchronous exceptions between finally and fw.done(); that EOF at the helper triggers restoration is property C04.",
         design="DESIGN.md §5 C12",
         technique="Coq proof (trace function over environment scripts, case analysis and induction over the iteration list) + trace differential correspondence"),
@@ -151,7 +151,7 @@ CHECKS = {
               "bootstrap one-liner reads exactly the assembler, the registered modules equal the packaged ones in order and byte for byte and the "
               "loop stops at the final blank name; the options module evaluates to the client's values; nothing but the two uploads is written "
               "before the sync string is verified; the server's first stdout bytes are the sync string (regenerated constants); the REMOTE COMMAND: for every string the POSIX-shell words of quote(s) are [s] (c18_quote_one_word), and the command handed to ssh runs the first of python3/python whose -V succeeds (or the --python path, as one word) with the bootstrap as one argument, under sh, cmd and powershell (c18_remote_command_posix/_python/_powershell). Tied to /repo by "
-              "running the REAL bootstrap produced by ssh.connect in fresh interpreters with an audit-hook prelude, fed in arbitrary segmentations; the argv of the real ssh.connect started on a stand-in ssh that hands the command to a real dash/bash login shell on hosts with python3+python / one of them / a failing python3 / none; the real get_module_source reading generated (incl. non-ASCII) sources through a redirected find_spec."),
+              "running the REAL bootstrap produced by ssh.connect in fresh interpreters with an audit-hook prelude, fed in arbitrary segmentations; the argv of the real ssh.connect started on a stand-in ssh that hands the command to a real dash/bash login shell on hosts with python3+python / one of them / a failing python3 / none; the real get_module_source reading generated (incl. non-ASCII) sources through a redirected find_spec. The client must have consumed exactly the synchronisation string (no read-ahead) when it hands the stream to the multiplexer."),
         note="modelled not verified: zlib beyond the sync-flush law, compile/exec of module bodies, repr(str) outside printable ASCII without quote/backslash, text-mode newline translation in get_module_source, a blocking send being complete.",
         design="DESIGN.md §5 C18",
         technique="Coq proof (assembler loop on a buffered reader, induction over the module list and over read cuttings) + real-bootstrap correspondence"),
@@ -168,7 +168,7 @@ CHECKS = {
               "aborted or is still connecting; and the LIVENESS half is proved too (c01_eager_drain, c01_eventual_delivery; Proofs/Stream_drain.v): from every reachable state without stale delivery an explicit finite eager schedule (no new connections, recv answers 'nothing more', send accepts everything, connects complete; "
               "StreamDrain.drain_of, justified by a strictly decreasing variant mu over all micro-steps) reaches, without raising, a quiescent (or stale) state, in which every byte read before has been handed on unless that socket failed. Not proved: that the drain itself never produces a stale delivery or a new socket fault (kept as escape clauses; c01_eventual_delivery_full). "
               "The harness checks delivery at quiescence on every generated schedule and that the real loops' calm implies the model's quiescentb. Tied to /repo by running the REAL ssnet.runonce/Proxy/Mux/SockWrapper/MuxWrapper, "
-              "client.onaccept_tcp and server.main's new_channel on fake sockets, logging every micro-step with its socket outcomes, replaying the log on the extracted model and comparing the full state of both ends after every iteration."),
+              "client.onaccept_tcp and server.main's new_channel on fake sockets, logging every micro-step with its socket outcomes, replaying the log on the extracted model and comparing the full state of both ends after every iteration. The tunnel's own file objects are covered too: the real ssh.connect (process creation faked, real socket pair) must never hold unread tunnel bytes where select cannot see them."),
         note="modelled not verified: kernel TCP sockets (outcomes are the environment's answers; send after shutdown fails with EPIPE), select readiness, the frame-level ssh link (its byte-level refinement is C07). Ghost flow numbers are model-only. The drain theorem quantifies over ONE eager schedule (existence), not over all fair schedules.",
         design="DESIGN.md §5 C01",
         technique="Coq proof (inductive pipeline invariant over all micro-step sequences, abstract view transition system + projection lemma) + micro-step-log differential correspondence"),
@@ -179,7 +179,7 @@ CHECKS = {
               "sockets shut, both buffers empty and both mux flags set. F22 (data-less half-close before the remote connect completes) is refuted with a kernel-evaluated witness and "
               "listed as a known finding, F20 (lingering handler) likewise observed on the real code. The quiescence sentence is proved in its safety form over quiescent states (Proofs/Stream_quiet.v): no undelivered data anywhere in the pipeline (c02_no_stuck_data); "
               "every remaining handler waits for its socket, for its peer, for a pending connect, or has the F20 shape (c02_quiet_handler_shape); no handler waits for a peer that is gone or that waits for it "
-              "(c02_no_stuck_state_partial); the unrestricted sentence is refuted with the F20 witness (c02_no_stuck_state_refuted). That the loops reach such a state IS proved (c02_eventually_not_stuck, c02_drain_schedule; Proofs/Stream_drain.v: explicit eager schedule with a strictly decreasing variant, no step raises)."),
+              "(c02_no_stuck_state_partial); the unrestricted sentence is refuted with the F20 witness (c02_no_stuck_state_refuted). That the loops reach such a state IS proved (c02_eventually_not_stuck, c02_drain_schedule; Proofs/Stream_drain.v: explicit eager schedule with a strictly decreasing variant, no step raises). On every quiescent generated run the harness also requires that the two tunnel ends of a flow agree on which directions are closed (the pairing the invariant proves)."),
         note="as C01. 'Bounded work' is the variant mu of the drain (a natural number computed from the state); the drain theorem is an existence statement for one eager schedule.",
         design="DESIGN.md §5 C02",
         technique="Coq proof (same inductive invariant; vi_clean / vi_dae clauses) + micro-step-log differential correspondence with close-order scenarios"),
